@@ -1,3 +1,4 @@
+import Spine.StoreF
 import Spine.C02Refine
 import Spine.Store
 import Spine.Generated.Shapes
@@ -321,5 +322,17 @@ theorem c02_example_is_a_row :
     (Generated.listTypes.find? (·.name == "LoadControlLimitListDataType")).map (·.shape.elMap) = some exShape.elMap ∧
     (Generated.listTypes.find? (·.name == "LoadControlLimitListDataType")).map (·.shape.flag) = some exShape.flag := by
   decide +kernel
+
+/-- The driver runs a member of the engine family `Spine.UpdateF` selected by probing the defect flags of the
+    C04 / C05 engine sites on the tree under test. With all flags on that member IS the code as written at the
+    pinned commit, i.e. the functions every theorem above speaks about; a repaired site switches one flag off and
+    only changes behaviour on the inputs that site is about (remote writes, a selector on an item without the
+    selected field, a selector with an empty list) — none of which the C02 theorems' hypotheses admit. -/
+theorem c02_family_member_as_written (sh : Shape) (remote persist fpNil fdNil : Bool) (store nw : List Item)
+    (fp fd : Option Filter) :
+    updateListF .asWritten sh remote store nw fp fd = updateList sh remote store nw fp fd ∧
+    updateDataF .asWritten sh remote persist fpNil fdNil store nw fp fd
+      = updateData sh remote persist fpNil fdNil store nw fp fd :=
+  ⟨updateListF_asWritten sh remote store nw fp fd, updateDataF_asWritten sh remote persist fpNil fdNil store nw fp fd⟩
 
 end Spine.Props.C02
